@@ -248,6 +248,56 @@ func genC07(env *core.Env, emit func(core.Case)) {
 			}
 		}
 	}
+	// backend flights as other TLS stacks write them: the ServerHello coalesced with the handshake messages
+	// that follow it in one record (a TLS 1.2 answer), whole and cut at every offset
+	for _, accepted := range []bool{true, false} {
+		for _, certLen := range []int{0, 300, 3000} {
+			fl := gen.Cat(gen.ServerFlight12Record(r, gen.RandBytes(r, 32), certLen), gen.Record(22, 0x0303, gen.Cat([]byte{12}, gen.LP24(gen.RandBytes(r, 70)))), gen.Record(23, 0x0303, []byte("tail")))
+			writeCase("wcoalesced", accepted, fl, [][]byte{fl}, fmt.Sprintf("cert%d", certLen), true)
+			writeCase("wcoalesced", accepted, fl, randChunks(r, fl), fmt.Sprintf("cert%d/chunked", certLen), true)
+			for off := 1; off < len(fl) && certLen == 0; off += env.Pick(3, 1) {
+				writeCase("wcoalesced", accepted, fl, splitAt(fl, off), cutClass(off, fl), true)
+			}
+		}
+	}
+	// the backend's HelloRetryRequest is written while the relay's other goroutine is already blocked in
+	// Read, and the client answers with its second hello at once (no compatibility change_cipher_spec,
+	// RFC 8446 D.4 makes it optional): the pipe must deliver the re-written second hello
+	for rep := 0; rep < env.Pick(10, 60); rep++ {
+		for _, rc := range retryCases(r) {
+			if rc.Kind != "G" {
+				continue
+			}
+			idx++
+			s := connh.NewSess(rc.Keys)
+			s.Register(rc.First)
+			s.Register(rc.Second)
+			first := s.New(oneChunk(rc.First), "eof")
+			w := ""
+			outcome := first.Err
+			if first.Err == "-" && first.Accepted {
+				s.Read(70000)
+				wr, rd := s.WriteWhileReadPending(70000, rc.HRR, [][]byte{rc.Second, gen.Record(23, 0x0303, []byte("data"))}, "eof")
+				outcome = rd.Err
+				switch {
+				case wr.Err != "-" || !bytes.Equal(wr.Out, rc.HRR):
+					w = "HelloRetryRequest not forwarded unchanged: " + wr.Err
+				case rd.Err != "-":
+					w = "second hello refused: " + rd.Err
+				case bytes.Equal(rd.Data, rc.Second) || bytes.HasPrefix(rd.Data, rc.Second):
+					w = "the second ClientHelloOuter was delivered to the backend as received (not re-written)"
+				}
+				rest := s.Read(70000)
+				if w == "" && string(rest.Data) != string(gen.Record(23, 0x0303, []byte("data"))) {
+					w = fmt.Sprintf("bytes after the second hello not delivered unchanged (%d bytes, err %s)", len(rest.Data), rest.Err)
+				}
+			}
+			s.X("Read pending while the HelloRetryRequest is written: second hello re-written, later bytes unchanged", w)
+			emit(core.Case{Name: fmt.Sprintf("pending-retry/%d", idx), Stream: "pending-retry", Ops: s.Ops, Key: "pending-retry",
+				Sig: fmt.Sprintf("pending-retry/%d/%s", len(rc.Keys), outcome), Sample: map[string]any{"keys": len(rc.Keys), "outcome": outcome}})
+			env.Count("pending-retry/" + outcome)
+		}
+	}
 	// several connections served by one process, their reads interleaved with small buffers: what one
 	// connection delivers must not depend on what the others are doing (buffers are per connection)
 	for rep := 0; rep < env.Pick(6, 60); rep++ {
